@@ -30,8 +30,9 @@ static int piece(const std::vector<double>& t, int k, double x) {
 int main(int argc, char** argv) {
 	if (argc < 2) return 2;
 	vp::Input in; if (!vp::parse(argv[1], in)) return 2;
-	unsigned mask = 0; double tolmul = 64;
-	for (auto& l : in.extra) { unsigned u; double d; if (sscanf(l.c_str(), "deriv %u", &u) == 1) mask = u; if (sscanf(l.c_str(), "tol %lf", &d) == 1) tolmul = d; }
+	unsigned mask = 0; double tolmul = 64; std::vector<unsigned> dn; bool usedn = false;
+	for (auto& l : in.extra) { unsigned u; double d; if (sscanf(l.c_str(), "deriv %u", &u) == 1) mask = u; if (sscanf(l.c_str(), "tol %lf", &d) == 1) tolmul = d;
+		if (l.compare(0, 7, "derivn ") == 0) { std::istringstream is(l.substr(7)); unsigned v; while (is >> v) dn.push_back(v); usedn = true; } }
 	splinetable<> t; vp::build(t, in.spec);
 	uint32_t nd = t.get_ndim();
 	std::vector<int> c(nd);
@@ -40,7 +41,7 @@ int main(int argc, char** argv) {
 	std::vector<std::vector<LD>> bas(nd);
 	for (uint32_t d = 0; d < nd; d++) {
 		int k = t.get_order(d); int na = t.naxes[d]; int s = piece(in.spec.knots[d], k, in.x[d]);
-		for (int i = 0; i < na; i++) bas[d].push_back(B(in.spec.knots[d], s, i, k, in.x[d], (mask >> d) & 1));
+		for (int i = 0; i < na; i++) bas[d].push_back(B(in.spec.knots[d], s, i, k, in.x[d], usedn ? (int)dn[d] : (int)((mask >> d) & 1)));
 	}
 	LD ref = 0, mag = 0; uint64_t n = t.get_ncoeffs(); std::vector<uint64_t> idx(nd, 0);
 	for (uint64_t p = 0; p < n; p++) {
@@ -55,6 +56,12 @@ int main(int argc, char** argv) {
 		std::printf("%-40s %.17g  reference %.17Lg  tol %.3Lg  %s\n", what, v, ref, tol, ok ? "ok" : "MISMATCH");
 		if (!ok) bad = 1;
 	};
+	if (usedn) {
+		cmp("ndsplineeval_deriv", t.ndsplineeval_deriv(in.x.data(), c.data(), dn.data()), 1.2e-7);
+		{ auto e = t.get_evaluator<double>(); cmp("evaluator<double>.ndsplineeval_deriv", e.ndsplineeval_deriv(in.x.data(), c.data(), dn.data()), 2.3e-16*8); }
+		std::printf(bad ? "REPLAY: VIOLATION CONFIRMED\n" : "REPLAY: no violation observed\n");
+		return bad ? 3 : 0;
+	}
 	cmp("ndsplineeval<float>", t.ndsplineeval(in.x.data(), c.data(), mask), 1.2e-7);
 	if (mask == 0) cmp("operator()", t(in.x.data()), 1.2e-7);
 	{ auto e = t.get_evaluator<float>(); cmp("evaluator<float>.ndsplineeval", e.ndsplineeval(in.x.data(), c.data(), mask), 1.2e-7); }
